@@ -105,6 +105,9 @@ fn parse_ty(toks: &[String], i: &mut usize) -> Option<Ty> {
         }
         w => {
             let cs: Vec<char> = w.chars().collect();
+            if w == "v" {
+                return Some(Ty::Scalar('v')); // void: only as the type argument of a typed load (C19.prog)
+            }
             if !"hiufdb".contains(cs[0]) {
                 return None;
             }
@@ -144,6 +147,7 @@ fn scalar_name(c: char) -> &'static str {
         'u' => "uint",
         'f' => "float",
         'd' => "double",
+        'v' => "void",
         _ => "bool",
     }
 }
@@ -514,6 +518,7 @@ fn up(x: u64, a: u64) -> u64 {
 /// bool is a 32-bit value in an HLSL structured buffer and one byte in Metal
 fn scalar_bytes(rule: Rule, c: char) -> Option<u64> {
     match c {
+        'v' => None,
         'h' => Some(2),
         'i' | 'u' | 'f' => Some(4),
         'd' => Some(8),
@@ -913,6 +918,27 @@ pub fn parse_prog(f: &[&str]) -> Option<Prog> {
         }
         sites.push(Site { kind: kind.into(), wrap: wrap.into(), ty });
     }
+    // `void` can only be the whole type argument of a typed load that is really type checked
+    fn mentions_void(t: &Ty) -> bool {
+        match t {
+            Ty::Scalar('v') => true,
+            Ty::Arr(e, _) => mentions_void(e),
+            Ty::Struct(ms) => ms.iter().any(mentions_void),
+            _ => false,
+        }
+    }
+    for (k, t) in tys.iter().enumerate() {
+        if mentions_void(t) {
+            let fine = *t == Ty::Scalar('v')
+                && sites.iter().filter(|s| s.ty == k).all(|s| {
+                    ["bload", "bload2", "rwbload", "rwbload2", "baload", "rwbaload"].contains(&s.kind.as_str())
+                        && ["m", "u", "me", "p", "a"].contains(&s.wrap.as_str())
+                });
+            if !fine {
+                return None;
+            }
+        }
+    }
     Some(Prog { target: h[0].into(), pipe: h[1] == "pipe", style, tys, sites })
 }
 
@@ -986,6 +1012,12 @@ fn prog_source(p: &Prog) -> (String, ProgLines) {
     }
     // statements of one typed load / store through buffer expression `b` with type name `n`
     let stmts = |site: &Site, i: usize, b: &str, n: &str| -> String {
+        if n == "void" {
+            return match site.kind.as_str() {
+                "bload2" | "rwbload2" => format!("uint st{}; {}.Load<void>(0, st{});", i, b, i),
+                _ => format!("{}.Load<void>(0);", b),
+            };
+        }
         match site.kind.as_str() {
             "bload" | "rwbload" | "baload" | "rwbaload" => format!("{} v{} = {}.Load<{}>(0);", n, i, b, targ(n)),
             "bload2" | "rwbload2" => format!("uint st{}; {} v{} = {}.Load<{}>(0, st{});", i, n, i, b, targ(n), i),
@@ -1302,6 +1334,9 @@ pub fn run(args: &Args, out: &mut Out) {
                 continue;
             }
             match parse_types(f[2]) {
+                Some(tys) if tys.iter().any(|t| show(t).split(|c: char| !c.is_alphanumeric()).any(|w| w == "v")) => {
+                    out.case(&line, "bad-request", "SKIP:bad request")
+                }
                 Some(tys) => run_one(f[1], &tys, out, &mut hist),
                 None => out.case(&line, "bad-request", "SKIP:bad request"),
             }
@@ -1588,6 +1623,18 @@ fn prog_streams(args: &Args, rng: &mut Rng, out: &mut Out, hist: &mut Hist) {
             if !matches!(w, Ty::Enum(_)) {
                 run_prog(&mk("msl", false, 0, vec![w.clone()], vec![(&sb, 0)]), out, hist);
             }
+        }
+    }
+    // `void` as the type argument of a typed load: no layout, a clean diagnostic
+    for k in ["bload", "bload2", "rwbload", "rwbload2", "baload", "rwbaload"] {
+        for w in ["m", "u", "me", "p", "a"] {
+            let site = (k.to_string(), w.to_string());
+            run_prog(&mk(*rng.pick(&targets), rng.chance(1, 2), 0, vec![Ty::Scalar('v')], vec![(&site, 0)]), out, hist);
+            run_prog(
+                &mk("vk", false, 0, vec![good.clone(), Ty::Scalar('v'), bad.clone()], vec![(&sb, 0), (&site, 1), (&ld, 2)]),
+                out,
+                hist,
+            );
         }
     }
     // P4. nesting depth 4-7
